@@ -37,7 +37,7 @@ _BOUNDARY_S = [
     4107542400 - 5184000 - 86400,  # 2100-02-28
     MAX_S - 1,
 ]
-_US_PARTS = [0, 1, 499, 500, 501, 999, 1000, 1001, 1999, 500000, 999000, 999001, 999499, 999500, 999999]
+_US_PARTS = [0, 1, 499, 500, 501, 999, 1000, 1001, 1999, 500000, 999000, 999001, 999499, 999500, 999999, 870000, 100000, 120000, 123400, 50000]
 
 
 def us_parts():
@@ -151,14 +151,16 @@ def floor_ms(us: int) -> int:
 
 def iso_spelling(us: int, off_min: int, style: int) -> str:
     """One of several ISO-8601 spellings of an instant. style bits:
-    0-1: fractional digits 0->auto(6 or none) 1->3 (only if exact) 2->6
+    0-1: fractional digits 0->auto(6 or none) 1->3 (only if exact) 2->6 3->minimal (1..6, trailing zeros dropped)
     2: 'T' vs ' ' separator; 3: offset as +hh:mm vs +hhmm; 4: 'Z' for zero offset."""
     d = dt_at(us, off_min)
     frac_style = style & 3
     sep = " " if style & 4 else "T"
     base = d.strftime("%Y-%m-%d") + sep + d.strftime("%H:%M:%S")
     usec = d.microsecond
-    if frac_style == 1 and usec % 1000 == 0:
+    if frac_style == 3 and usec:
+        base += "." + ("%06d" % usec).rstrip("0")  # as few digits as represent it: .5, .87, .1234
+    elif frac_style == 1 and usec % 1000 == 0:
         base += ".%03d" % (usec // 1000)
     elif frac_style == 2 or usec:
         base += ".%06d" % usec
